@@ -4,7 +4,7 @@ from __future__ import annotations
 import ast
 
 from ..cfg import CFG
-from ..engine import AnalysisError, PropertySpec, norm
+from ..engine import AnalysisError, MechanismMissing, PropertySpec, norm
 from ..pyutil import call_name, calls, is_name, walk_local
 from ._simplify import META_PASSES, MODEL, option_blocks, passes
 
@@ -106,14 +106,14 @@ def r15_1(ctx, rep):
                    "after the loop self.alg_states must be rebuilt from the dictionary the loop removed from and self.equations "
                    "set to the reduced list (found %s / %s)" % (rebuilt[:1], eqs[:1]))
     if n < 3:
-        raise AnalysisError(R, "fewer than 3 equation-reducing loops found")
+        raise MechanismMissing(R, "fewer than 3 equation-reducing loops found")
     # _make_alias: True only after alias_relation.add
     ma = None
     for x in ast.walk(fn):
         if isinstance(x, ast.FunctionDef) and x.name == "_make_alias":
             ma = x
     if ma is None:
-        raise AnalysisError(R, "_make_alias not found")
+        raise MechanismMissing(R, "_make_alias not found")
     cfg = CFG(ma, R)
     adds = {x.id for x in cfg.stmts() if "self.alias_relation.add(" in norm(x.ast)}
     bad = None
